@@ -46,8 +46,7 @@ def callee_map(prop):
         for cd in cds:
             pc = verify.parsed(cd)
             if pc.options.get('callable'):
-                out[tgt] = cd
-                break
+                out.setdefault(tgt, []).append(cd)
     return out
 
 
